@@ -1,5 +1,6 @@
 import Tv.Thm.C01
 import Tv.Lemmas.Local
+import Tv.Thm.C03
 /-!
 # C06 — rolling and lagging results never depend on later (or pre-window) data
 
@@ -40,5 +41,111 @@ theorem feat_prewindow (f : Feat) (sh : Shape) (xs ys : List (Option Rat)) (w : 
 example : tsFeat .mean .to ([some 1, some 2, some 3, some 4].take 2) 2 none
     = (tsFeat .mean .to [some 1, some 2, some 3, some 4] 2 none).take 2 :=
   feat_prefix _ _ _ _ _ (by decide) _
+
+
+/-! ## Part 2 — extrema / arg-extrema / rank / normalisation family
+
+For the five cmp.rs functions an *explicit* `min_periods` makes the effective minimum independent
+of the series length; with an omitted one it is `min len w / 2`, which is the same for a prefix of
+length `≥ w` (DESIGN 5.3). The two norm.rs functions never look at the length. All results are
+exact in the model; min / max / arg / rank are exact in the implementation too. -/
+
+/-- generic: a function that is `i ↦ F (window xs i w)` for every series is prefix-stable -/
+theorem prefix_of_windowed {β : Type} (G : List (Option Rat) → List β) (F : List (Option Rat) → β) (w : Nat)
+    (hG : ∀ xs, G xs = (List.range xs.length).map fun i => F (window xs i w)) (xs : List (Option Rat)) (k : Nat) :
+    G (xs.take k) = (G xs).take k := by
+  rw [hG, hG]; exact windowed_prefix F xs w k
+
+/-- generic: ... and local to the window -/
+theorem local_of_windowed {β : Type} (G : List (Option Rat) → List β) (F : List (Option Rat) → β) (w : Nat)
+    (hG : ∀ xs, G xs = (List.range xs.length).map fun i => F (window xs i w))
+    (xs ys : List (Option Rat)) (hlen : xs.length = ys.length) (i : Nat)
+    (h : ∀ j, i + 1 - w ≤ j → j ≤ i → xs[j]? = ys[j]?) : (G xs)[i]? = (G ys)[i]? := by
+  rw [hG, hG]
+  simp only [List.getElem?_map, hlen]
+  cases hr : (List.range ys.length)[i]? with
+  | none => rfl
+  | some n =>
+    have : n = i := by
+      obtain ⟨hlt, he⟩ := List.getElem?_eq_some_iff.mp hr
+      simpa using he.symm
+    subst this
+    simp only [Option.map_some]
+    rw [window_congr xs ys n w h]
+
+/-- **no look-ahead**, extrema / arg / rank with explicit `min_periods` -/
+theorem c03_cmp_prefix (sh : Shape) (xs : List (Option Rat)) (w m : Nat) (hw : 1 ≤ w) (k : Nat) :
+    C03.tsVmin sh (xs.take k) w (some m) = (C03.tsVmin sh xs w (some m)).take k ∧
+    C03.tsVmax sh (xs.take k) w (some m) = (C03.tsVmax sh xs w (some m)).take k ∧
+    C03.tsVargmin sh (xs.take k) w (some m) = (C03.tsVargmin sh xs w (some m)).take k ∧
+    C03.tsVargmax sh (xs.take k) w (some m) = (C03.tsVargmax sh xs w (some m)).take k ∧
+    (∀ pct rev, C03.tsVrank sh (xs.take k) w (some m) pct rev = (C03.tsVrank sh xs w (some m) pct rev).take k) := by
+  refine ⟨?_, ?_, ?_, ?_, ?_⟩
+  · exact prefix_of_windowed (fun xs => C03.tsVmin sh xs w (some m)) (C03.Spec.tsMin m) w
+      (fun xs => C03.vmin_exact sh xs w (some m) hw) xs k
+  · exact prefix_of_windowed (fun xs => C03.tsVmax sh xs w (some m)) (C03.Spec.tsMax m) w
+      (fun xs => C03.vmax_exact sh xs w (some m) hw) xs k
+  · exact prefix_of_windowed (fun xs => C03.tsVargmin sh xs w (some m)) (C03.Spec.tsArgmin m) w
+      (fun xs => C03.vargmin_exact sh xs w (some m) hw) xs k
+  · exact prefix_of_windowed (fun xs => C03.tsVargmax sh xs w (some m)) (C03.Spec.tsArgmax m) w
+      (fun xs => C03.vargmax_exact sh xs w (some m) hw) xs k
+  · intro pct rev
+    exact prefix_of_windowed (fun xs => C03.tsVrank sh xs w (some m) pct rev) (C03.Spec.tsRank m pct rev) w
+      (fun xs => C03.vrank_exact sh xs w (some m) pct rev hw) xs k
+
+/-- omitted `min_periods`: prefix-stable for prefixes at least as long as the window (5.3) -/
+theorem c03_vmin_prefix_none (sh : Shape) (xs : List (Option Rat)) (w : Nat) (hw : 1 ≤ w) (k : Nat)
+    (hk : w ≤ k) (hkl : k ≤ xs.length) :
+    C03.tsVmin sh (xs.take k) w none = (C03.tsVmin sh xs w none).take k := by
+  rw [C03.vmin_exact sh _ w none hw, C03.vmin_exact sh xs w none hw]
+  have e : C03.cmpMp none w (xs.take k).length = C03.cmpMp none w xs.length := by
+    simp only [C03.cmpMp, List.length_take, Option.getD_none]
+    rw [Nat.min_eq_left hkl, Nat.min_eq_right hk, Nat.min_eq_right (by omega : w ≤ xs.length)]
+  rw [e]
+  exact windowed_prefix (C03.Spec.tsMin (C03.cmpMp none w xs.length)) xs w k
+
+/-- **no look-ahead**, normalisation family, any `min_periods` -/
+theorem c03_norm_prefix (sh : Shape) (xs : List (Option Rat)) (w : Nat) (mp : Option Nat) (hw : 1 ≤ w) (k : Nat) :
+    C03.tsVminmaxnorm sh (xs.take k) w mp = (C03.tsVminmaxnorm sh xs w mp).take k ∧
+    C03.tsVzscore sh (xs.take k) w mp = (C03.tsVzscore sh xs w mp).take k := by
+  constructor
+  · exact prefix_of_windowed (fun xs => C03.tsVminmaxnorm sh xs w mp) (C03.Spec.tsMinmaxnorm (C03.normMp mp w)) w
+      (fun xs => C03.vminmaxnorm_exact sh xs w mp hw) xs k
+  · exact prefix_of_windowed (fun xs => C03.tsVzscore sh xs w mp) (C03.Spec.tsZscore (C03.normMp mp w)) w
+      (fun xs => C03.vzscore_exact sh xs w mp hw) xs k
+
+/-- **no dependence on pre-window data (exactly)**: min / max / arg / rank / normalisation of two
+equally long series that agree on `i+1-w ..= i` agree at `i` -/
+theorem c03_prewindow (sh : Shape) (xs ys : List (Option Rat)) (w : Nat) (mp : Option Nat) (hw : 1 ≤ w)
+    (hlen : xs.length = ys.length) (i : Nat) (h : ∀ j, i + 1 - w ≤ j → j ≤ i → xs[j]? = ys[j]?) :
+    (C03.tsVmin sh xs w mp)[i]? = (C03.tsVmin sh ys w mp)[i]? ∧
+    (C03.tsVmax sh xs w mp)[i]? = (C03.tsVmax sh ys w mp)[i]? ∧
+    (C03.tsVargmin sh xs w mp)[i]? = (C03.tsVargmin sh ys w mp)[i]? ∧
+    (C03.tsVargmax sh xs w mp)[i]? = (C03.tsVargmax sh ys w mp)[i]? ∧
+    (∀ pct rev, (C03.tsVrank sh xs w mp pct rev)[i]? = (C03.tsVrank sh ys w mp pct rev)[i]?) ∧
+    (C03.tsVminmaxnorm sh xs w mp)[i]? = (C03.tsVminmaxnorm sh ys w mp)[i]? ∧
+    (C03.tsVzscore sh xs w mp)[i]? = (C03.tsVzscore sh ys w mp)[i]? := by
+  have key : ∀ {β : Type} (F : List (Option Rat) → β),
+      ((List.range xs.length).map fun i => F (window xs i w))[i]? =
+      ((List.range ys.length).map fun i => F (window ys i w))[i]? := by
+    intro β F
+    exact local_of_windowed (fun zs => (List.range zs.length).map fun i => F (window zs i w)) F w
+      (fun _ => rfl) xs ys hlen i h
+  refine ⟨?_, ?_, ?_, ?_, ?_, ?_, ?_⟩
+  · rw [C03.vmin_exact sh xs w mp hw, C03.vmin_exact sh ys w mp hw, hlen]; rw [← hlen]
+    have := key (C03.Spec.tsMin (C03.cmpMp mp w xs.length)); rw [hlen] at this ⊢; exact this
+  · rw [C03.vmax_exact sh xs w mp hw, C03.vmax_exact sh ys w mp hw]
+    have := key (C03.Spec.tsMax (C03.cmpMp mp w xs.length)); rw [hlen] at this ⊢; exact this
+  · rw [C03.vargmin_exact sh xs w mp hw, C03.vargmin_exact sh ys w mp hw]
+    have := key (C03.Spec.tsArgmin (C03.cmpMp mp w xs.length)); rw [hlen] at this ⊢; exact this
+  · rw [C03.vargmax_exact sh xs w mp hw, C03.vargmax_exact sh ys w mp hw]
+    have := key (C03.Spec.tsArgmax (C03.cmpMp mp w xs.length)); rw [hlen] at this ⊢; exact this
+  · intro pct rev
+    rw [C03.vrank_exact sh xs w mp pct rev hw, C03.vrank_exact sh ys w mp pct rev hw]
+    have := key (C03.Spec.tsRank (C03.cmpMp mp w xs.length) pct rev); rw [hlen] at this ⊢; exact this
+  · rw [C03.vminmaxnorm_exact sh xs w mp hw, C03.vminmaxnorm_exact sh ys w mp hw]
+    exact key (C03.Spec.tsMinmaxnorm (C03.normMp mp w))
+  · rw [C03.vzscore_exact sh xs w mp hw, C03.vzscore_exact sh ys w mp hw]
+    exact key (C03.Spec.tsZscore (C03.normMp mp w))
 
 end Tv.C06
